@@ -517,16 +517,18 @@ def stepOp (toks : List String) (impl : String) : Verdict :=
         | _ => bad
       | none => bad
     | none => bad
-  | "e2e" :: r =>
+  | "e2e" :: nk :: r =>
     match parseProps r with
     | some (p, r1) =>
       match parseArgs r1 with
       | some (a, []) =>
+        let nameOk := nk == "n1"
         let hdrs := generateParamHeaders std64 p a
         let verdict := validateParamHeaders std64 p a hdrs
-        let model := match verdict with | none => "ok same" | some _ => "rej -32020 handler=0"
+        -- `extractName` fails on both sides: no Mcp-Name is sent and the server answers -32020
+        let model := if !nameOk then "rej -32020 handler=0" else match verdict with | none => "ok same" | some _ => "rej -32020 handler=0"
         -- client_server_agree: for valid arguments (every bound, present, non-null member primitive) the call goes through
-        let valid := (bindings p).all (fun b => match a.lookup b.path with
+        let valid := nameOk && (bindings p).all (fun b => match a.lookup b.path with
           | none => true | some .null => true
           | some v => match unmarshalPrimitive v with
             | some (.int n) => -specMaxSafe ≤ n && n ≤ specMaxSafe
